@@ -557,8 +557,9 @@ class PrioritizedReplayBuffer(LAP):
             size=batch_size
         )
 
-        self.priority.sampled_indices = np.searchsorted(
-            probabilities, random_points
+        # the upper end of the last segment can exceed the total by an ulp
+        self.priority.sampled_indices = np.minimum(
+            np.searchsorted(probabilities, random_points), current_len - 1
         )
         return self.priority.sampled_indices
 
